@@ -1,8 +1,9 @@
 import Driver.Proto
 import Driver.OpsFem
+import Driver.OpsDiffGeo
 open LapyVerif.Driver
 
-def allOps : List (String × P String) := femOps
+def allOps : List (String × P String) := femOps ++ diffGeoOps
 
 def handle (line : String) : String :=
   let toks := ((line.trimAscii.toString.splitOn " ").filter (· ≠ "")).toArray
